@@ -168,7 +168,7 @@ def _format_resname(res):
     out = ''
     if chain:
         out += chain + '-'
-    resname = res.get('resname')
+    resname = res.get('resname') or ''
     out += resname
     if resname and resname[-1].isdigit():
         out += '#'
@@ -253,18 +253,14 @@ def annotate_modifications(molecule, modifications, mutations, resspec_counts):
     residue = {key: residue_graph.nodes[0].get(key)
                for key in 'chain resid resname insertion_code'.split()}
     for mutmod, key, library in associations:
-        for resspec, mod in mutmod:
-            extra = False
+        for spec_idx, (resspec, mod) in enumerate(mutmod):
             mod_found = _resiter(mod, residue_graph, resspec, library, key, molecule)
-            if not mod_found:
-                #if no mod found, return that there's a problem
-                resspec_counts.append({'success': False,
-                                       'mutmod': _format_resname(resspec),
-                                       'post': mod,})
-                extra = True
-    #return that everything's fine by default
-    if not extra:
-        resspec_counts.append({'success': True})
+            # Report per specification whether it was found in this molecule.
+            resspec_counts.append({'success': mod_found,
+                                   'key': key,
+                                   'index': spec_idx,
+                                   'mutmod': _format_resname(resspec),
+                                   'post': mod,})
 
 class AnnotateMutMod(Processor):
     """
@@ -298,7 +294,16 @@ class AnnotateMutMod(Processor):
         return molecule
     def run_system(self, system):
         super().run_system(system)
-        _exit = sum([i['success'] for i in self.resspec_counts])
-        if _exit == 0:
-            LOGGER.warning('Residue specified by "{}" for mutation "{}" not found',
-                           self.resspec_counts[0]['mutmod'], self.resspec_counts[0]['post'])
+        # A specification is only a problem if it matched in none of the
+        # molecules of the system.
+        found = {}
+        for count in self.resspec_counts:
+            spec = (count['key'], count['index'])
+            found[spec] = found.get(spec, False) or count['success']
+        reported = set()
+        for count in self.resspec_counts:
+            spec = (count['key'], count['index'])
+            if not found[spec] and spec not in reported:
+                reported.add(spec)
+                LOGGER.warning('Residue specified by "{}" for {} "{}" not found',
+                               count['mutmod'], count['key'], count['post'])
